@@ -276,8 +276,11 @@ def run_unit(tpl_path, width, rlimit=30):
                             hit.add(int(m.group(1)))
         r["probes_failed_as_required"] = len(hit)
         missing = [k for k in range(1, gv.nprobes + 1) if k not in hit]
+        vac_rlimit = any(d.get("level") == "error" and RLIMIT.search(d.get("message", "")) for d in resv.get("diags", []))
         if "crash" in resv:
             r["undecided"].append("vacuity run: " + resv["crash"])
+        elif missing and vac_rlimit:
+            r["undecided"].append("vacuity run hit the solver resource limit; probe(s) %s not decided" % missing)
         elif missing:
             r["undecided"].append(
                 "vacuity: probe(s) %s were proved, i.e. the context there is contradictory" % missing)
